@@ -37,7 +37,7 @@ class ParglareError(Exception):
 def get_line_col_at_position(
     text: str, pos: int
 ) -> Tuple[Optional[int], Optional[int], Optional[str], Optional[str]]:
-    lines = text.splitlines(keepends=True)
+    lines = text.splitlines(keepends=True) or [""]
 
     if pos > len(text):
         # Position out of range
